@@ -7,7 +7,12 @@ from . import fstree, qlib, walklib
 from .common import coq_eval, parse_nested, pmap, load_known
 
 INT_COLS = ["size", "uid", "gid", "hardlinks", "length(name)"]
-STR_COLS = ["name", "path", "ext", "dir", "mode"]
+STR_COLS = ["name", "path", "ext", "dir", "mode", "lower(name)", "upper(name)"]
+# the text under which the evaluator caches a column's value (Display of the expression): a quoted literal that
+# spells it - or any column / function word - is still text
+DISPLAY = {"name": "Name", "path": "Path", "ext": "Extension", "dir": "Directory", "mode": "Mode", "lower(name)": "Lower(Name)", "upper(name)": "Upper(Name)"}
+SPELLINGS = ["Name", "name", "NAME", "Size", "size", "Path", "path", "Extension", "ext", "Directory", "dir", "Mode", "mode", "Lower(Name)", "lower(name)", "Upper(Name)",
+             "is_dir", "IsDir", "true", "Uid", "Length(Name)", "bin", "Modified", "now"]
 BOOL_COLS = ["is_dir", "is_file", "is_symlink", "is_hidden", "user_read", "user_write", "user_exec", "group_read", "other_write", "other_exec", "suid", "sgid", "user_all"]
 OPS = {"eq": ["=", "==", "eq"], "ne": ["!=", "<>", "ne"], "eeq": ["===", "eeq"], "ene": ["!==", "ene"], "gt": [">", "gt"], "ge": [">=", "gte", "ge"],
        "lt": ["<", "lt"], "le": ["<=", "lte", "le"]}
@@ -30,7 +35,7 @@ def build(ctx):
     root = os.path.join(ctx.scratch, "w")
     os.mkdir(root)
     sizes = [0, 1, 9, 10, 11, 99, 100, 999, 1000, 1001, 1023, 1024, 1025, 2047, 2048, 2049, 1000000, 1048575, 1048576, 1048577]
-    names = ["a", "B", "a.txt", "A.TXT", "size", "bin", "name", "x.bin", "10", "true", ".hid", ".hid.rc", "no_ext.", "two.part.tar.gz", "sp ace.txt", "é.txt", "q'1"]
+    names = ["a", "B", "a.txt", "A.TXT", "size", "bin", "name", "Name", "NAME", "Size", "x.Extension", "Mode", "Directory", "x.bin", "10", "true", ".hid", ".hid.rc", "no_ext.", "two.part.tar.gz", "sp ace.txt", "é.txt", "q'1"]
     nodes = []
     for i, nm in enumerate(names):
         n = {"name": nm, "kind": "file", "size": sizes[i % len(sizes)], "perm": rng.choice([0o644, 0o755, 0o600, 0o4755, 0o2711, 0o666, 0o000, 0o444])}
@@ -62,6 +67,10 @@ def attr(n, rel, col):
         return len(n["name"])
     if col == "name":
         return n["name"]
+    if col == "lower(name)":
+        return n["name"].lower()
+    if col == "upper(name)":
+        return n["name"].upper()
     if col == "path":
         return rel
     if col == "dir":
@@ -133,8 +142,13 @@ def run(ctx):
             col = rng.choice(STR_COLS)
             vals = sorted({attr(n, p, col) for p, n in entries})
             v = rng.choice(vals)
-            if rng.random() < 0.2:
+            r_ = rng.random()
+            if r_ < 0.2:
                 v = v.swapcase()
+            elif r_ < 0.35:
+                v = DISPLAY[col]
+            elif r_ < 0.5:
+                v = rng.choice(SPELLINGS)
             if not v or "*" in v or "?" in v or qlib.quote(v) is None:
                 continue
             atoms.append(dict(kind="str", col=col, opk=opk, text="%s %s %s" % (col, op, qlib.quote(v)), lit=v))
